@@ -79,6 +79,8 @@ type World struct {
 
 	cfilterTamper func(p *SimPeer, b *chainmodel.Block, msg *wire.MsgCFilter) []wire.Message
 	txMode        func(p *SimPeer, h [32]byte) int
+	// txRejectRepeat: how often a node repeats its reject of a transaction.
+	txRejectRepeat func(p *SimPeer) int
 
 	steps int
 	halt  bool
